@@ -493,6 +493,22 @@ pub fn c09(tier: &str, seed: u64) -> Vec<Case> {
             }
         }
     }
+    // EDNS data set and then taken away again (`*opt_mut() = None`): no OPT record, ARCOUNT back to the number of records
+    for k in 0..12u16 {
+        let mut p = Packet::new_reply(k);
+        *p.opt_mut() = Some(g.opt());
+        for _ in 0..(k % 3) { p.additional_records.push(g.rr_of(0)); }
+        *p.rcode_mut() = if k % 2 == 0 { RCODE::BADVERS } else { RCODE::NoError };
+        *p.opt_mut() = None;
+        let mut c = Case::oracle_only().tag("opt-cleared");
+        for (how, bytes) in [("plain", p.build_bytes_vec()), ("compressed", p.build_bytes_vec_compressed())] {
+            match bytes.ok().and_then(|b| walker::walk(&b)) {
+                Some(w) => { if w.sections[2].iter().any(|e| e.typ == 41) || w.counts[3] as usize != p.additional_records.len() { c = c.fail("opt-count", format!("{}: after the EDNS data was removed the message still carries an OPT record or counts one", how)); } }
+                None => { c = c.fail("opt-not-framed", format!("{}: not framed", how)); }
+            }
+        }
+        v.push(c);
+    }
     // the option triples through writers that take a few bytes per call, and into storage that ends inside the last
     // option value: the same bytes, or an error - never a shortened value reported as success
     for i in 0..(if thorough { 300 } else { 40 }) {
